@@ -152,7 +152,8 @@ Section Pages.
       apply forallb_forall. intros o Ho. apply in_map_iff in Ho. destruct Ho as (j & <- & _). reflexivity.
     - destruct cur as [c|]. 2: reflexivity. cbn [paging_values]. rewrite page_vars_length.
       destruct Hv as [Hl _]. rewrite Hl. destruct (proj2 (proj2 (proj2 (proj2 (proj2 wfp_parts))))) as [Hne _].
-      destruct (q_order q). congruence. simpl. rewrite Nat.leb_refl. reflexivity.
+      assert (Hpos : List.length (q_order q) <> 0%nat) by (intro Hz; apply length_zero_iff_nil in Hz; contradiction).
+      apply andb_true_intro. split. apply negb_true_iff. apply Nat.eqb_neq. exact Hpos. apply Nat.leb_refl.
   Qed.
 
   Lemma page_params : forall cur, valid_cursor cur -> params_ok (with_page q n cur) (cursor_params cur ++ ps) = true.
@@ -173,13 +174,13 @@ Section Pages.
         * destruct cur as [c|]; cbn [paging_values] in Ho. 2: contradiction.
           apply in_map_iff in Ho. destruct Ho as (j & <- & Hj). destruct Hvo as [<-|[]].
           apply in_seq in Hj. rewrite cursor_params_some.
-          pose proof (lookup_cursor c 0 j ps) as Hl. simpl in Hl. rewrite Hl by lia. reflexivity.
+          pose proof (lookup_cursor c 0 j ps) as Hl. cbn [Nat.add] in Hl. rewrite Hl by lia. reflexivity.
         * destruct Ho as [<-|[]]. contradiction.
     - reflexivity.
     - reflexivity.
     - destruct cur as [c|]; cbn [paging_values]. 2: reflexivity.
       apply forallb_forall. intros o Ho. apply in_map_iff in Ho. destruct Ho as (j & <- & Hj). apply in_seq in Hj.
-      simpl. rewrite cursor_params_some. pose proof (lookup_cursor c 0 j ps) as Hl. simpl in Hl. rewrite Hl by lia.
+      cbn [operand_value]. rewrite cursor_params_some. pose proof (lookup_cursor c 0 j ps) as Hl. cbn [Nat.add] in Hl. rewrite Hl by lia.
       destruct Hv as [_ Hnn]. rewrite Forall_forall in Hnn.
       assert (Hx : nth j c VNull <> VNull) by (apply Hnn; apply nth_In; lia).
       destruct (nth j c VNull); try reflexivity. congruence.
@@ -222,5 +223,116 @@ Section Pages.
     run_query m rows (with_page q n cur) (cursor_params cur ++ ps) = eval m rows (with_page q n cur) (cursor_params cur ++ ps).
   Proof.
     intros cur Hv. apply T1_outside_known. apply page_wf; assumption. apply page_params; assumption. apply page_known; assumption.
+  Qed.
+
+  (* ---------- the reference evaluation of the whole result and of one page ---------- *)
+  Definition passes (r : row) : bool :=
+    forallb (fun fv : qfilter * val => holds (fl_op (fst fv)) (ref_value m q r (fl_ref (fst fv))) (snd fv))
+            (combine (q_filters q) (filter_values q ps)).
+  Definition M : list row := filter passes rows.
+  Definition S : list row := isort (rcmp m q) M.
+  Definition after (c : list val) (r : row) : bool :=
+    match lex_cmp (dirs q) (row_keys m q r) c with Gt => true | _ => false end.
+
+  Lemma fvals_some : forall cur,
+    all_some (map (fun f => operand_value (cursor_params cur ++ ps) (fl_val f)) (q_filters q)) = Some (filter_values q ps).
+  Proof.
+    intros cur. pose proof Hpo as H. unfold params_ok in H.
+    apply andb_prop in H. destruct H as [H _]. apply andb_prop in H. destruct H as [H _]. apply andb_prop in H. destruct H as [P1 _].
+    rewrite forallb_forall in P1.
+    destruct (all_some_Forall2 _ _ (fun f => operand_value ps (fl_val f)) (q_filters q)) as (fv & Hfv & Hfv2).
+    { intros f Hin. destruct (fl_val f) as [v|nm] eqn:Ev; simpl. discriminate.
+      specialize (P1 nm (vars_filter q f nm Hin Ev)). destruct (lookup nm ps); congruence. }
+    rewrite (filter_values_eq q ps fv Hfv2). rewrite <- Hfv. f_equal. apply map_ext_in. intros f Hin. apply operand_value_filter. exact Hin.
+  Qed.
+
+  Lemma eval_full : eval m rows q ps = Some (map (project m q) S).
+  Proof.
+    pose proof wfp_parts as W. destruct W as (_ & _ & Epg & Ef & Es & _).
+    unfold eval. pose proof (fvals_some None) as Hf. cbn [cursor_params app] in Hf. rewrite Hf.
+    rewrite Epg, Ef, Es. cbn [paging_values map all_some operand_value option_map as_int].
+    unfold take_first, drop_skip. cbn [Z.leb Z.compare]. f_equal. f_equal.
+    unfold ordered, S, M, matching. rewrite Epg. f_equal. apply filter_ext. intros r. rewrite andb_true_r. reflexivity.
+  Qed.
+
+  Lemma M_matching : matching m (no_paging q) (filter_values q ps) [] rows = M.
+  Proof.
+    unfold matching, M. cbn [no_paging q_filters q_paging]. apply filter_ext. intros r. rewrite andb_true_r.
+    unfold passes. apply forallb_ext_in'. intros fv _. rewrite ref_value_no_paging. reflexivity.
+  Qed.
+
+  Lemma has_dup_pairs : forall A (eqv : A -> A -> bool) l, has_dup eqv l = false -> ForallOrdPairs (fun a b => eqv a b = false) l.
+  Proof.
+    intros A eqv l. induction l as [|x t IH]; intros H. constructor.
+    simpl in H. apply orb_false_elim in H. destruct H as [H1 H2]. constructor.
+    - apply Forall_forall. intros y Hy. destruct (eqv x y) eqn:E; [|reflexivity].
+      assert (existsb (eqv x) t = true) by (apply existsb_exists; exists y; split; assumption). congruence.
+    - apply IH. exact H2.
+  Qed.
+
+  Lemma M_pairwise : pairwise_ne (rcmp m q) M.
+  Proof.
+    pose proof Hties as H. unfold k_ties, matching_keys in H. rewrite M_matching in H.
+    apply has_dup_pairs in H. unfold pairwise_ne. induction M as [|x t IH]. constructor.
+    simpl in H. inversion H as [|? ? Hx Ht]; subst. constructor.
+    - rewrite Forall_forall in *. intros y Hy. specialize (Hx (row_keys m q y) (in_map _ _ _ Hy)).
+      unfold lex_eq in Hx. unfold rcmp. destruct (lex_cmp (dirs q) (row_keys m q x) (row_keys m q y)); congruence.
+    - apply IH. exact Ht.
+  Qed.
+
+  Lemma S_perm : Permutation M S.
+  Proof. apply isort_perm. Qed.
+
+  Lemma S_strict : StronglySorted (clt (rcmp m q)) S.
+  Proof.
+    apply sorted_strict.
+    - apply isort_sorted. apply rcmp_antisym. apply rcmp_eq_congr. apply rcmp_lt_trans.
+    - apply no_equiv_pairwise. eapply pairwise_ne_perm. apply rcmp_antisym. apply S_perm. apply M_pairwise.
+  Qed.
+
+  Lemma S_in_M : forall y, In y S -> In y rows /\ passes y = true.
+  Proof.
+    intros y Hy. eapply Permutation_in in Hy; [|apply Permutation_sym, S_perm]. unfold M in Hy. apply filter_In in Hy. exact Hy.
+  Qed.
+
+  (* keys of matching rows are never null outside class 1 *)
+  Lemma keys_nonnull : forall y, In y S -> Forall (fun v => v <> VNull) (row_keys m q y).
+  Proof.
+    intros y Hy. pose proof Hk1 as H. unfold k_paging, matching_keys in H. rewrite M_matching in H.
+    apply Forall_forall. intros v Hv Hnull. subst v.
+    assert (Hex : existsb (existsb is_null) (map (firstn (List.length (q_order q))) (map (row_keys m q) M)) = true).
+    { apply existsb_exists. exists (row_keys m q y). split.
+      - apply in_map_iff. exists (row_keys m q y). split.
+        + apply firstn_all2. rewrite row_keys_length. unfold dirs. rewrite map_length. lia.
+        + apply in_map. eapply Permutation_in. apply Permutation_sym, S_perm. exact Hy.
+      - apply existsb_exists. exists VNull. split. exact Hv. reflexivity. }
+    congruence.
+  Qed.
+
+  Lemma eval_page : forall cur, valid_cursor cur ->
+    eval m rows (with_page q n cur) (cursor_params cur ++ ps) =
+    Some (map (project m q) (firstn (Z.to_nat n) (match cur with None => S | Some c => filter (after c) S end))).
+  Proof.
+    intros cur Hv. unfold eval. cbn [with_page q_filters q_paging q_first q_skip].
+    rewrite (fvals_some cur). cbn [operand_value option_map as_int].
+    assert (Hcur : all_some (map (operand_value (cursor_params cur ++ ps))
+                   (paging_values match cur with Some c => PAfter (map (fun j => OVar (cursor_name j)) (seq 0 (List.length c))) | None => PNone end))
+                   = Some (match cur with Some c => c | None => [] end)).
+    { destruct cur as [c|]. cbn [paging_values]. apply cursor_values. reflexivity. }
+    rewrite Hcur.
+    unfold take_first, drop_skip. cbn [Z.leb Z.compare].
+    assert (Hnle : Z.leb n 0 = false) by (apply Z.leb_gt; exact Hn). rewrite Hnle.
+    f_equal. 
+    assert (Hproj : forall l, map (project m (with_page q n cur)) l = map (project m q) l) by reflexivity.
+    rewrite Hproj. f_equal. f_equal.
+    destruct cur as [c|].
+    - (* a page after a cursor *)
+      change (ordered m (with_page q n (Some c)) (matching m (with_page q n (Some c)) (filter_values q ps) c rows))
+        with (isort (rcmp m q) (filter (fun r => passes r && after c r) rows)).
+      rewrite filter_filter'. fold M. unfold S.
+      apply isort_filter. apply rcmp_antisym. apply rcmp_eq_congr. apply rcmp_lt_trans. apply M_pairwise.
+    - change (ordered m (with_page q n None) (matching m (with_page q n None) (filter_values q ps) [] rows))
+        with (isort (rcmp m q) (filter (fun r => passes r && true) rows)).
+      unfold S, M. f_equal. apply filter_ext. intros r. apply andb_true_r.
   Qed.
 End Pages.
